@@ -27,6 +27,19 @@ fn verif_replay() {
             drop(busy);
             let _ = tokio::time::timeout(ms(500), api).await;
             serde_json::json!({"panicked": false, "new_connection_blocked": blocked})
+        } else if which == "post_rules_vs_dispatch" {
+            // a rule list that differs from the installed one is POSTed; meanwhile the dispatcher's first step -- reading the
+            // rule list (state.rules().await) -- must still get its turn, and the POST itself must come back
+            let parse = |y: &str| -> Vec<Arc<Rule>> { let v: serde_yaml::Sequence = serde_yaml::from_str(y).unwrap(); crate::rules::from_config(&v).unwrap() };
+            let _ = state.set_rules(parse("- {target: deny, filter: 'request.target.port == 25'}")).await;
+            let st2 = state.clone();
+            let newlist = parse("- {target: deny, filter: 'request.target.port == 26'}\n- {target: deny}");
+            let post = tokio::spawn(async move { let _ = post_rules(Extension(st2), Json(newlist)).await.into_response(); });
+            tokio::time::sleep(ms(100)).await;
+            let st3 = state.clone();
+            let readers_blocked = tokio::time::timeout(ms(700), async move { let _g = st3.rules().await; }).await.is_err();
+            let post_returned = tokio::time::timeout(ms(700), post).await.is_ok();
+            serde_json::json!({"panicked": false, "rule_list_readers_blocked": readers_blocked, "post_returned": post_returned})
         } else {
             let ctx = state.contexts.create_context("l".into(), "127.0.0.1:1".parse().unwrap()).await;
             let (_silent_client, ours) = tokio::io::duplex(4096);
